@@ -242,6 +242,8 @@ def run_blocking(R, args):
                 inv.append(sq(p1) == sq(p2))
             R.check(f"invariance/path{k}", base + [z3.Not(z3.And(*inv))], variables, concrete("invariance"))
     R.res["paths"] = k
+    if getattr(ex, "unproved_failures", 0):
+        R.res["inconclusive"].append(f"{ex.unproved_failures} path(s) admitted after an unknown feasibility query ended in an exception of the code under test")
     cover = z3.Solver()
     cover.set("timeout", 60000)
     cover.add(*pre)
@@ -353,6 +355,8 @@ def run_outliers(R, args):
         post = z3.And(post, z3.BoolVal(ok_rows), *eqs)
         R.check(f"kept_rows/path{k}", pre + pc + [z3.Not(post)], variables, concrete)
     R.res["paths"] = k
+    if getattr(ex, "unproved_failures", 0):
+        R.res["inconclusive"].append(f"{ex.unproved_failures} path(s) admitted after an unknown feasibility query ended in an exception of the code under test")
     if n <= 3:  # explicit coverage query (for larger n the depth-first exploration is exhaustive by construction)
         cover = z3.Solver()
         cover.set("timeout", 120000)
